@@ -19,8 +19,8 @@ RULE = ('random programs (sets, multi-key updates, nested batch / discard_events
         'the probe trace on a fresh twin. non-trivial = the fault fired and the probe delivered >= 1 event on both objects; '
         'distinct by (fault kind, site kind, nesting, in-batch, program shape)')
 PARAMS = {
-    'quick': dict(cases=220, shards=8, double=1),
-    'thorough': dict(cases=9000, shards=16, double=4),
+    'quick': dict(cases=290, shards=8, double=1),
+    'thorough': dict(cases=11000, shards=16, double=4),
 }
 EXHAUSTIVE = {'quick': True, 'thorough': True}
 EXHAUSTIVE_NOTE = 'complete over the fault sites of each generated program (single faults); double faults and programs are sampled'
@@ -374,7 +374,24 @@ def class_level_case(idx, rng, P, rep):
         S = type(f'CS{idx}', (A,), {})
         return A, S
 
-    def history(A, S, fault):
+    def history(A, S, fault, raising=True):
+        if fault == 'raising-watcher':
+            # an accepted class-level assignment through the subclass, announced to a class-level watcher that raises: the
+            # assignment stands (compared with the same history in which the watcher does not raise)
+            def boom(*evs):
+                if raising:
+                    raise RuntimeError('watcher failed')
+            K = S if rng_flags[0] else A
+            w = K.param.watch(boom, ['a', 'n'])
+            try:
+                if rng_flags[1]:
+                    S.a = ('assigned', 5)
+                else:
+                    S.param.update(a=('assigned', 5), n=2)
+            except RuntimeError:
+                pass
+            K.param.unwatch(w)
+            return
         kw = dict(e=True)
         if fault == 'bad-value':
             kw = dict(e=True, n=99) if rng_flags[0] else dict(n=99, e=True)
@@ -386,7 +403,9 @@ def class_level_case(idx, rng, P, rep):
             pass
 
     def probe(A, S):
-        out = []
+        out = [('values', A.a, S.a, A.n, S.n)]
+        A.n = 3
+        out.append(('subclass-follows-parent', S.n))
         for K in (A, S):
             got = []
             w = K.param.watch(lambda ev: got.append((ev.name, ev.new, ev.type)), ['e', 'a'], onlychanged=False)
@@ -404,12 +423,14 @@ def class_level_case(idx, rng, P, rep):
             out.append(('instance-event', K is A, got2, o.e))
         return out
 
-    fault = rng.choice([None, 'bad-value', 'unknown'])
-    rng_flags = [rng.random() < 0.5]
+    fault = rng.choice([None, 'bad-value', 'unknown', 'raising-watcher'])
+    rng_flags = [rng.random() < 0.5, rng.random() < 0.5]
     A, S = build()
     history(A, S, fault)
     got = probe(A, S)
     A2, S2 = build()
+    if fault == 'raising-watcher':
+        history(A2, S2, fault, raising=False)
     want = probe(A2, S2)
     rep.count('class_level_cases')
     if got != want:
@@ -417,12 +438,12 @@ def class_level_case(idx, rng, P, rep):
         rep.violation('C05/class-level/probe-differs-from-fresh-classes' + (f'/{fault}' if fault else ''),
                       f'after SubClass.param.update(e=True{", failing with " + fault if fault else ""}) the probe step {d[0][0]!r} gave {d[0]!r}, '
                       f'freshly declared classes give {d[1]!r}', case=dict(fault=fault))
-    rep.case(('class-level', fault, rng_flags[0]), nontrivial=True)
+    rep.case(('class-level', fault, tuple(rng_flags)), nontrivial=True)
 
 
 def run_case(idx, rng, P, rep):
     param = _st['param']
-    if rng.random() < 0.08:
+    if rng.random() < 0.25:
         return class_level_case(idx, rng, P, rep)
     cls = make_class(param, idx)
     nw = rng.randint(1, 4)
